@@ -177,6 +177,31 @@ class Ctx:
         self.log("E1 %s/%s: %d edges emitted (%d distinct states)" % (tla, cfg, len(edges), dist))
         return edges
 
+    def tlc_sim(self, d, tla, cfg, num, depth, timeout=900, xss=False, tag="EDGE "):
+        """Random behaviours of the specification: tlc -simulate with ACTION_CONSTRAINT Emit.
+        Returns a list of walks (lists of emitted edges), split where a behaviour restarts from
+        the initial state. Seeded by VERIF_SEED."""
+        extra = ("-simulate", "num=%d" % num, "-depth", str(depth), "-seed", str(self.seed))
+        rc, out = self._tlc(d, tla, cfg, 1, extra, timeout, xss=xss)
+        if "Error:" in out and "violated" in out:
+            raise Infra("simulation run reported a violation (model problem) %s/%s:\n%s" % (tla, cfg, out[-3000:]))
+        walks, cur, init = [], [], None
+        for line in out.splitlines():
+            line = line.strip()
+            if line.startswith('"' + tag):
+                e = json.loads(json.loads(line)[len(tag):])
+                k = canon(e["from"])
+                if init is None:
+                    init = k
+                if k == init and cur:
+                    walks.append(cur)
+                    cur = []
+                cur.append(e)
+        if cur:
+            walks.append(cur)
+        self.log("E1 %s/%s: %d simulated behaviours, %d steps" % (tla, cfg, len(walks), sum(len(w) for w in walks)))
+        return walks
+
     def tlc_trace(self, d, tla, cfg, trace_file, timeout=900, xss=False, dfs=True):
         """Validate a recorded trace. Returns dict(accepted, line, event, invariant, out)."""
         rc, out = self._tlc(d, tla, cfg, 1, (), timeout, env={"VERIF_TRACE": trace_file}, xss=xss, dfs=dfs)
